@@ -59,11 +59,11 @@ Section Query.
   (* every existing instance is wrapped in the current graph (true as long as the graph was not re-created) *)
   Definition AllReg (L : list orec) (r : reg) : Prop := forall x, In x L -> exists w, In w (wl r) /\ w_obj w = o_id x.
 
-  Theorem instances_perm L r T :
+  Lemma instances_raw_perm L r T :
     RegInv L r -> WorldOk L -> swept L r -> AllReg L r -> desc_b children fuel T T = false ->
-    Permutation (instances L r T) (map Some (spec_query children fuel L T)).
+    Permutation (instances_raw children fuel L r T) (map Some (spec_query children fuel L T)).
   Proof.
-    intros Hr Hw Hs Ha Hac. unfold instances, spec_query.
+    intros Hr Hw Hs Ha Hac. unfold instances_raw, spec_query.
     assert (Hcl : NoDup (T :: rsub children fuel T)).
     { constructor; [|apply rsub_NoDup]. rewrite rsub_desc_b. congruence. }
     rewrite (flat_map_map (deref L) (fun c => filter (fun w => w_cls w =? c) (wl r))).
@@ -93,6 +93,15 @@ Section Query.
     intros Hw P. eapply Permutation_NoDup; [symmetry; exact P|].
     apply FinFun.Injective_map_NoDup; [intros a b E; congruence|].
     unfold spec_query. apply NoDup_map_filter. apply Hw.
+  Qed.
+
+  Theorem instances_perm L r T :
+    RegInv L r -> WorldOk L -> swept L r -> AllReg L r -> desc_b children fuel T T = false ->
+    Permutation (instances L r T) (map Some (spec_query children fuel L T)).
+  Proof.
+    intros Hr Hw Hs Ha Hac. assert (P := instances_raw_perm L r T Hr Hw Hs Ha Hac).
+    unfold instances. rewrite filter_all; auto.
+    intros x Hx. apply (Permutation_in _ P) in Hx. apply in_map_iff in Hx. destruct Hx as [o [<- _]]. reflexivity.
   Qed.
 
   (* ---------------------------------------------------------------- AllReg over histories without Clear *)
